@@ -27,6 +27,11 @@ FAMILY["C13"] = {"NotifBefore", "NotifNewPoints", "NotifEndIterCount", "NotifSto
 SUBSETS = [tuple(c) for k in range(4) for c in itertools.combinations(("before", "enditer", "stop"), k)]
 
 
+def samples_objective(label):
+    """listeners / modes that evaluate the objective on a grid of their own to draw it"""
+    return label in ("static:objective function", "staticND:lines layers:objective function", "anim:False:True", "animND:True")
+
+
 def shipped_listeners(n, tmp, rng):
     """(label, factory) for every shipped listener / mode applicable to dimension n (documented domains)."""
     from iOpt.method.listener import (AnimationNDPaintListener, AnimationPaintListener, ConsoleFullOutputListener,
@@ -119,8 +124,17 @@ def run(ctx):
     os.chdir(tmp)
     runs, samples, combos = [], [], []
     try:
-        def problem(n):
+        # bounds with two-decimal ends for which a float step (b - a) / 150 does not land on b exactly: grids built by stepping
+        # (np.arange) get one node too many there - every third painter problem uses them on every axis
+        AWKWARD = [(3.79, 4.42), (0.22, 1.41), (-1.09, 0.09999999999999987), (-3.4, -1.0499999999999998), (1.54, 3.92)]
+        awk = itertools.count()
+
+        def problem(n, awkward=False):
             lo, up = rand_box_solver(rng, n)
+            if awkward:
+                k = next(awk)
+                lo = [AWKWARD[(k + i) % len(AWKWARD)][0] for i in range(n)]
+                up = [AWKWARD[(k + i) % len(AWKWARD)][1] for i in range(n)]
             fseed = rng.randrange(1 << 30)
             name, f = objective_zoo(_r.Random(fseed), n, lo, up)
             return FnProblem(n, lo, up, f, name)
@@ -158,12 +172,12 @@ def run(ctx):
             for _ in range(2 if qk else 12):
                 todo.append(rng.sample(zoo, rng.randint(2, 3)))
             if qk:
-                keep = [t for t in todo if len(t) > 1 or t[0][0].startswith("console")]
+                keep = [t for t in todo if len(t) > 1 or t[0][0].startswith("console") or samples_objective(t[0][0])]
                 rest = [t for t in todo if t not in keep]
                 todo = keep + rng.sample(rest, min(len(rest), 6 if n > 1 else 5))
-            for combo in todo:
+            for ci, combo in enumerate(todo):
                 labels = [c[0] for c in combo]
-                prob = problem(n)
+                prob = problem(n, awkward=(ci % 3 == 0 or any(samples_objective(l) for l in labels)))
                 r_, eps, limit, m = scen.rand_params(rng, n)
                 limit = min(limit, 40)
                 pat = rng.choice(patterns(limit)[:2] + [[("dgi", 2), ("solve", 0)]])
